@@ -95,6 +95,84 @@ def run_class(case, ctx):
     ctx.nontrivial(it - 1 >= 2 and changed and bool(active))
 
 
+# --------------------------------------------------------------------------- reconfiguration mid-run
+@st.composite
+def reconfig_cases(draw, tier='quick'):
+    """a class-API configuration plus benign re-decorations of the objective between iterations (the same
+    penalty / constraints / ranges installed again, a fresh evaluation monitor, Finalize) and a resume after
+    the stop (limits raised): none of them changes the objective, so every clause of the property still
+    applies at every later boundary"""
+    cfg = draw(configs(tier, clip_modes=((None, None), (True, None), (False, None), (True, True), (None, True))))
+    n = cfg['maxiter']
+    hows = ['evalmon', 'penalty', 'constraints', 'finalize'] + (['ranges', 'ranges'] if cfg.get('bounds') else [])
+    k = draw(st.integers(1, 3))
+    cfg['reconfig'] = [[draw(st.integers(0, max(0, n - 1))), draw(st.sampled_from(hows))] for _ in range(k)]
+    cfg['resume'] = draw(st.sampled_from([0, 0, 2, 4]))
+    return cfg
+
+
+def _reconfigure(run, how):
+    from mystic.monitors import Monitor
+    s = run.solver
+    if how == 'evalmon':
+        s.SetEvaluationMonitor(Monitor())
+    elif how == 'penalty':
+        s.SetPenalty(run.pen)
+    elif how == 'constraints':
+        s.SetConstraints(run.con)
+    elif how == 'finalize':
+        s.Finalize()
+    elif how == 'ranges':
+        b = run.cfg['bounds']
+        s.SetStrictRanges(list(run.box[0]), list(run.box[1]), tight=b.get('tight'), clip=b.get('clip'))
+
+
+def run_reconfig(case, ctx):
+    run = Run(case, ctx)
+    s = run.solver
+    plan = {}
+    for at, how in case['reconfig']:
+        plan.setdefault(at, []).append(how)
+    nmax = case['maxiter'] + 3
+    boundaries = 0; resumed = False; did = []
+    b = 0
+    while b < nmax + 8:
+        msg = run.step()
+        if len(run.callbacks) == boundaries + 1:
+            boundaries += 1
+            check_boundary(run, ctx, b)
+            for how in plan.pop(boundaries - 1, []):
+                if not msg:
+                    _reconfigure(run, how); did.append(how)
+                    # nothing has been evaluated: the best and its energy are what they were
+                    check_best_only(run, ctx, 'after ' + how)
+        b += 1
+        if msg:
+            if case['resume'] and not resumed and boundaries >= 1:
+                resumed = True
+                s.SetEvaluationLimits(generations=int(s.generations) + case['resume'], evaluations=10 ** 6)
+                if not s.Terminated():
+                    did.append('resume')
+                    continue
+            break
+    ctx.label('solver:' + run.kind, *['reconfig:' + h for h in sorted(set(did))])
+    for k in ('bounds', 'constraint', 'penalty', 'reducer'):
+        if case.get(k): ctx.label(k)
+    ctx.nontrivial(bool(did) and boundaries >= 3)
+
+
+def check_best_only(run, ctx, where):
+    s = run.solver
+    be = float(s.bestEnergy); bs = lab.fvec(s.bestSolution)
+    if math.isfinite(be):
+        rec = run.cost.lookup(bs)
+        ctx.expect(rec is not None, 'C01.evaluated', lambda: dict(solver=run.kind, where=where, bestSolution=bs))
+        if rec is not None:
+            want = run.energy_from_record(bs)
+            ctx.expect(feq(be, want, 4 if run.red else 0, red_tol(run, bs)), 'C01.energy',
+                       lambda: dict(solver=run.kind, where=where, bestEnergy=be, expected=float(want), bestSolution=bs))
+
+
 # --------------------------------------------------------------------------- wrappers
 @st.composite
 def wrapper_cases(draw, tier='quick'):
@@ -191,6 +269,8 @@ TESTS = [
          examples={'quick': 8000, 'thorough': 120000}),
     Test('wrapper', run_wrapper, strategy=lambda tier: wrapper_cases(tier),
          examples={'quick': 1600, 'thorough': 30000}),
+    Test('reconfig', run_reconfig, strategy=lambda tier: reconfig_cases(tier),
+         examples={'quick': 4000, 'thorough': 80000}),
 ]
 
 def _kf_f8(case, subcheck, detail):
@@ -199,4 +279,14 @@ def _kf_f8(case, subcheck, detail):
         and subcheck in ('C01.energy', 'C01.members', 'C01.not_worse')
 
 
-KNOWN = {'F8-sum-reducer-counts-penalty-per-component': _kf_f8}
+def _kf_f49(case, subcheck, detail):
+    # Nelder-Mead with strict ranges: every re-decoration of the objective after generation 0 (any Set*, Finalize,
+    # a Step after a stop) rebuilds the simplex around the best vertex (_setSimplexWithinRangeBoundary) but keeps
+    # the old vertex energies
+    return (subcheck == 'C01.members' and case.get('solver') == 'NM' and bool(case.get('bounds'))
+            and (bool(case.get('reconfig')) or bool(case.get('resume'))) and isinstance(detail, dict)
+            and detail.get('member', 0) >= 1)
+
+
+KNOWN = {'F8-sum-reducer-counts-penalty-per-component': _kf_f8,
+         'F49-nm-simplex-reset-keeps-old-energies': _kf_f49}
